@@ -110,7 +110,11 @@ def ob_a2(kind: int, cat: int, fails: bool, text: str) -> bool:
 # ------------------------------------------------------------------ C18.b real parser corpus
 EXTRA = ['4c', '8.dd#L', '2r', '4c 4e', '16qqE-J', '=1', '==', '=2||', '=:|!|:', '=-', '.', '*', 'la', 'Ky-ri-e', 'f', 'pp', 'C7', 'I6/4', '1', '1-2',
          'zig zag', '4zz', 'c4', '[[[', 'é', '!fc', '12', '%', 'a·b', '\\', 'x' * 20, ' =||',
-         'r[', '4rL', 'rs', '4rt', '-rym', '*xywh-1:1,,3,4', '*xywh-1:1,2,3', '*xywh-1', 'G/B', 'Am', '4c 4', 'r', 'rr', ']', '=||x']
+         'r[', '4rL', 'rs', '4rt', '-rym', '*xywh-1:1,,3,4', '*xywh-1:1,2,3', '*xywh-1', 'G/B', 'Am', '4c 4', 'r', 'rr', ']', '=||x',
+         # long cells: shared tokens of more than 32 / 64 characters, long free text, long notes
+         '*xywh-123:10240,20480,15360,12000', '*xywh-scan_0012.jpg:102,204,1536,1200', '*xywh-' + '9' * 40 + ':1,2,3,4', '=' + '1' * 40,
+         '*M2/4+3/8+2/4+3/8+2/4+3/8+2/4+3/8', '*k[f#c#g#d#a#e#b#f##c##g##d##a##e##b##]', 'w' * 70, 'Ky-ri-e e-le-i-son, Chri-ste e-le-i-son', '4' + 'c' * 40,
+         '16' + '.' * 35 + 'c', "4cc#LLLLLLLLLLLLLLLLLLLLLLLLLLLLLLLLLL"]
 
 
 @native
